@@ -1689,7 +1689,7 @@ fn main() {
     macro_sites(&mut r);
 
     // Miri interprets ~1000x slower: sizes there are absolute (times --scale), not the tier's
-    let miri = cfg!(miri);
+    let miri = cfg!(miri) || args.get("tiny").is_some();
 
     // 2. static generic shapes over seeded entries
     let n_static = if miri { (args.scale / 100).max(1) } else { args.n(1_500, 40_000) };
